@@ -79,8 +79,8 @@ func c15StoreRun(c c15StoreCase, st *vlib.Stats) string {
 	if npages < 3 {
 		return ""
 	}
-	fs.cache = NewLRU(c.StoreCap)   // everything is on disk: start from a cold, small cache
-	held := map[uint64]*btreeNode{} // pages handed out and still dirty (a statement would hold them)
+	fs.cache = NewLRU(c.StoreCap)    // everything is on disk: start from a cold, small cache
+	held := map[uint64]*btreeNode{}  // pages handed out and still dirty (a statement would hold them)
 	lastStamp := map[uint64]uint64{} // the LSN of the last change of every page changed here: what the file must show in the end
 	failedFlushes := 0
 	lsn := uint64(1 << 40)
